@@ -223,4 +223,46 @@ theorem phase_C {p : Par} {s : State} {gab gba : GLink} (h : Cons p s gab gba) (
   rw [hgs, hsplit]
   simp [stamp, List.append_assoc]
 
+/-! ### phase A: the retransmission is emitted -/
+
+/-- **Phase A.**  In any consistent state, a FULL flush of A at a time when the timer of an
+un-acknowledged segment of its send buffer is due — or the segment has never been sent — puts a
+datagram on the link A → B that arrives `D` later and contains the PUSH of that segment.  No window,
+no counter, no other segment can prevent it. -/
+theorem phase_A {p : Par} {s : State} {gab gba : GLink} (h : Cons p s gab gba) (x : Seg) (hx : x ∈ s.A.snd_buf)
+    (hna : x.acked = false) (hdue : x.xmit = 0 ∨ itimediff (clk s.now) x.resendts ≥ 0) :
+    ∃ fr0 frs0 pre post, (Sys.step s .flushA).ab = s.ab ++ pre ++ [⟨s.now + s.D, encFrames frs0⟩] ++ post ∧
+      fr0 ∈ frs0 ∧ fr0.cmd.toNat = IKCP_CMD_PUSH ∧ fr0.sn = x.sn := by
+  obtain ⟨hpan, _, _, _⟩ := Total.flush_total h.aK true (clk s.now)
+  obtain ⟨gs, hgs, hfl⟩ := flush_frames s.A true (clk s.now) hpan
+  obtain ⟨t, ht⟩ := flAd_prefix s.A (clk s.now)
+  have hxb : x ∈ (flAd s.A (clk s.now)).buf := by rw [ht]; exact List.mem_append_left _ hx
+  have hc : cause (clk s.now) (resentOf s.A) (flAd s.A (clk s.now)).count x ≠ .none := by
+    rcases hdue with h0 | hd
+    · rw [(cause_initial_iff _ _ _ x).mpr h0]; exact fun c => by cases c
+    · by_cases h0 : x.xmit = 0
+      · rw [(cause_initial_iff _ _ _ x).mpr h0]; exact fun c => by cases c
+      · rcases cause_due (clk s.now) (resentOf s.A) (flAd s.A (clk s.now)).count x h0 hd with e | e | e <;> rw [e] <;>
+          exact fun c => by cases c
+  have hsent : sentB (clk s.now) (resentOf s.A) (flAd s.A (clk s.now)).count x = true := by
+    unfold sentB
+    simp [hna, hc]
+  have hfrm : frmOf (segAfter (clk s.now) (resentOf s.A) (wndUnused s.A) s.A.rcv_nxt (flAd s.A (clk s.now)).count
+      s.A.rx_rto s.A.nodelay x) ∈ flushFrs s.A true (clk s.now) := by
+    unfold flushFrs pushFrs
+    simp only [↓reduceIte]
+    apply List.mem_append_right
+    exact List.mem_map.mpr ⟨x, List.mem_filter.mpr ⟨hxb, hsent⟩, rfl⟩
+  rw [← hfl] at hfrm
+  obtain ⟨g, hg, hfg⟩ := List.mem_flatten.mp hfrm
+  obtain ⟨pre, post, hsplit⟩ := List.append_of_mem hg
+  obtain ⟨i1, _, _, i4, _⟩ := segAfter_id (clk s.now) (resentOf s.A) (wndUnused s.A) s.A.rcv_nxt
+    (flAd s.A (clk s.now)).count s.A.rx_rto s.A.nodelay x
+  refine ⟨_, g, stamp (s.now + s.D) (pre.map encFrames), stamp (s.now + s.D) (post.map encFrames), ?_, hfg, ?_, i1⟩
+  · show s.ab ++ stamp (s.now + s.D) (s.A.flush true (clk s.now)).outs = _
+    rw [hgs, hsplit]
+    simp [stamp, List.append_assoc]
+  · show (segAfter _ _ _ _ _ _ _ x).cmd.toNat = _
+    rw [i4, (h.atag x hx).2]; decide
+
 end KcpVerif.SysC
